@@ -68,6 +68,10 @@ def cases(tier: str, seed: int) -> list[dict]:
     for direction in ('DOWNLOAD', 'UPLOAD'):
         for st in states_for(direction):
             out.append({'kind': 'matrix', 'direction': direction, 'state': st, 'seed': seed})
+    # peer-message matrix: every state x direction x transfer-related peer message through the real handlers
+    for direction in ('DOWNLOAD', 'UPLOAD'):
+        for st in states_for(direction):
+            out.append({'kind': 'peer-matrix', 'direction': direction, 'state': st, 'seed': seed})
     n_conc = 12000 if tier == 'quick' else 100000
     batch = 25
     for i in range(n_conc // batch):
@@ -83,6 +87,8 @@ def run_case(params: dict) -> dict:
         return _run_matrix(params)
     if params['kind'] == 'concurrent':
         return _run_concurrent(params)
+    if params['kind'] == 'peer-matrix':
+        return _run_peer_matrix(params)
     return _run_live(params)
 
 
@@ -244,6 +250,132 @@ def _run_matrix(params: dict) -> dict:
     res['evaluations'] = len(rows)
     res['sample'] = {'kind': 'matrix', 'direction': direction, 'state': state,
                      'rows': [(op, list(o), after) for op, o, after in rows]}
+    return res
+
+
+# ---------------------------------------------------------------------------
+# peer messages as requests: the handlers of the real manager are fed every transfer-related peer message for a
+# transfer in every state (with the tasks the manager would have attached, incl. the retry attempt of a download
+# that FAILED without a reason).  When every state operation the handler issued was refused, nothing about the
+# transfer may have changed between the handler's entry and its return - tasks included.
+
+class _StubPeerConnection:
+    username = 'peer'
+    hostname, port = '10.9.9.9', 2234
+
+    def __init__(self):
+        self.sent = []
+
+    async def send_message(self, message):
+        self.sent.append(message)
+
+    def queue_message(self, message):
+        self.sent.append(message)
+        fut = asyncio.get_running_loop().create_future()
+        fut.set_result(None)
+        return fut
+
+    async def disconnect(self, *a, **kw):
+        pass
+
+
+def _peer_messages(t, direction: str) -> list:
+    from aioslsk.protocol.messages import (
+        PeerPlaceInQueueRequest, PeerTransferQueue, PeerTransferQueueFailed, PeerTransferRequest, PeerUploadFailed)
+    f = t.remote_path
+    if direction == 'DOWNLOAD':
+        return [
+            ('queue-failed', '_on_peer_transfer_queue_failed', PeerTransferQueueFailed.Request(f, 'Banned')),
+            ('upload-failed', '_on_peer_upload_failed', PeerUploadFailed.Request(f)),
+            ('transfer-request', '_on_peer_transfer_request', PeerTransferRequest.Request(1, 4321, f, filesize=1000)),
+        ]
+    return [
+        ('transfer-queue', '_on_peer_transfer_queue', PeerTransferQueue.Request(f)),
+        ('transfer-request', '_on_peer_transfer_request', PeerTransferRequest.Request(0, 4321, f)),
+        ('place-in-queue', '_on_peer_place_in_queue_request', PeerPlaceInQueueRequest.Request(f)),
+    ]
+
+
+def _run_peer_matrix(params: dict) -> dict:
+    from ..monitors import _snapshot
+    res = runner.new_result(params['case'])
+    direction, state = params['direction'], params['state']
+    tm = TransferMonitor()
+    tm.activate()
+    tmp = tempfile.mkdtemp(prefix='vf-c03-')
+    rows = []
+    variants = [{}]
+    if state == 'FAILED':
+        variants = [{'reason': 'Cancelled'}, {'reason': None}]
+    if state in ('QUEUED', 'INCOMPLETE') and direction == 'DOWNLOAD':
+        variants = [{'remotely_queued': False}, {'remotely_queued': True}]
+
+    async def main(loop):
+        bench = Bench(tmp, tm)
+        for variant in variants:
+            for k in range(3):
+                t = await bench.new_transfer(direction)
+                await bench.drive(t, state)
+                if state == 'FAILED' and variant.get('reason') is None:
+                    t.fail_reason = None
+                if 'remotely_queued' in variant:
+                    t.remotely_queued = variant['remotely_queued']
+                # a download the manager retries has a remote-queue attempt in flight
+                retried = direction == 'DOWNLOAD' and not t.remotely_queued and (
+                    state in ('QUEUED', 'INCOMPLETE') or (state == 'FAILED' and t.fail_reason is None))
+                if retried and t._remotely_queue_task is None:
+                    t._remotely_queue_task = asyncio.ensure_future(_slow_task(2))
+                    t._remotely_queue_task.add_done_callback(t._remotely_queue_task_complete)
+                    await asyncio.sleep(0)
+                name, handler, msg = _peer_messages(t, direction)[k]
+                conn = _StubPeerConnection()
+                n_ops = len(tm.ops)
+                before = _snapshot(t)
+                before_state = t.state.VALUE.name
+                try:
+                    await getattr(bench.manager, handler)(msg, conn)
+                    outcome = 'returned'
+                except Exception as exc:  # noqa
+                    outcome = f'raised {type(exc).__name__}'
+                after = _snapshot(t)
+                after_state = t.state.VALUE.name
+                key = tm.key(t)
+                ops = [o for o in tm.ops[n_ops:] if o['transfer'] == key and 't_done' in o]
+                accepted = [o for o in ops if o.get('result') is True]
+                refused = [o for o in ops if o.get('result') is False]
+                runner.add_obs(res, 'peer_matrix_cells')
+                rows.append((name, variant, outcome, [(o['op'], o.get('result')) for o in ops], after_state))
+                if refused and not accepted:
+                    runner.add_obs(res, 'peer_requests_refused')
+                    diff = {f: (before[f], after[f]) for f in after if before[f] != after[f]}
+                    if after_state != before_state:
+                        diff['state'] = (before_state, after_state)
+                    if diff:
+                        runner.violation(
+                            res, f"refused-peer-request-side-effect:{name}:in-{before_state}:{direction.lower()}:" + '+'.join(sorted(diff)),
+                            diff={f: [str(a), str(b)] for f, (a, b) in diff.items()}, variant=variant,
+                            ops=[(o['op'], o.get('result')) for o in ops])
+                for tt in t.get_tasks():
+                    tt.cancel()
+                await asyncio.sleep(0)
+        return True
+
+    try:
+        _, exceptions = _run_on_simloop(main, seed=params['seed'])
+    except BaseException as exc:  # noqa
+        res['inconclusive'] = f'{type(exc).__name__}: {exc}'
+        exceptions = []
+    finally:
+        tm.deactivate()
+        shutil.rmtree(tmp, ignore_errors=True)
+    for e in exceptions:
+        if e.get('exc_type') == 'CancelledError':
+            continue
+        runner.violation(res, f"loop-exception:{e.get('exc_type')}", **e)
+    tm.report(res)
+    res['csigs'].append(f'peer-matrix|{direction}|{state}')
+    res['evaluations'] = len(rows)
+    res['sample'] = {'kind': 'peer-matrix', 'direction': direction, 'state': state, 'rows': rows}
     return res
 
 
